@@ -185,6 +185,8 @@ mod slice_reductions;
 mod threading;
 mod timing;
 mod value;
+#[cfg(rten_verif)]
+pub mod verif;
 mod weight_cache;
 
 #[cfg(feature = "wasm_api")]
